@@ -146,7 +146,8 @@ NodeKindOK(kind, n, isMap) ==
     [] kind \in {"item", "items"} -> n.j \in {"str", "obj", "arr"}
     [] kind = "time" -> n.j = "str" /\ "ts" \in DOMAIN n
     [] kind = "dur" -> n.j = "str" /\ "ds" \in DOMAIN n
-    [] kind \in {"uint", "int", "float"} -> n.j = "num"
+    [] kind = "uint" -> n.j = "num" /\ ~("neg" \in DOMAIN n /\ n.neg)        \* a count is never written with a minus sign
+    [] kind \in {"int", "float"} -> n.j = "num"
     [] kind = "bool" -> n.j = "bool"
     [] kind \in {"source", "endpoints", "pubkey"} -> n.j = "obj"
     [] OTHER -> n.j = "str"
